@@ -101,10 +101,16 @@ def _permuted(case, perm):
 
 
 def _bijection(col, shift):
+    """A bijection on the observed group labels: a rotation within the label set (odd shift) or a renaming to fresh
+    string labels in rotated order (even shift) - the latter also changes the type and sort order of the labels."""
     levels = M.observed_levels(col)
     levels_sorted = sorted(levels, key=lambda v: M.norm(v))
     k = len(levels_sorted)
-    mapping = {M.norm(v): levels_sorted[(i + shift) % k] for i, v in enumerate(levels_sorted)}
+    if shift % 2 == 0:
+        fresh = ["n%d" % ((i + shift) % k) for i in range(k)]
+        mapping = {M.norm(v): fresh[i] for i, v in enumerate(levels_sorted)}
+    else:
+        mapping = {M.norm(v): levels_sorted[(i + shift) % k] for i, v in enumerate(levels_sorted)}
     return [mapping[M.norm(v)] for v in col], mapping
 
 
@@ -163,7 +169,7 @@ def check_metricframe(case):
         tags.append("nt")
     if pandas_nondefault:
         tags.append("pandas_nondefault_index")
-    if len(M.observed_levels(col0)) >= 2 and case["shift"] % len(M.observed_levels(col0)) != 0:
+    if len(M.observed_levels(col0)) >= 2 and (case["shift"] % 2 == 0 or case["shift"] % len(M.observed_levels(col0)) != 0):
         tags.append("bijection_moves_labels")
     if list(perm) != sorted(perm):
         tags.append("perm_nontrivial")
@@ -316,6 +322,22 @@ def check_moment(case):
         for k in renamed:
             if not _close(renamed[k], g_bj[k], 1e-12):
                 raise PropertyViolation(f"{case['moment']}: gamma[{k}] changes under a group-label bijection: {renamed[k]!r} -> {g_bj[k]!r}")
+    # ... and the per-row signed weights do not change at all when groups are merely renamed (multipliers follow
+    # their group)
+    if case["moment"] != "ErrorRate":
+        inv = {str(mapping[M.norm(v)]): str(v) for v in M.observed_levels(g)}
+        lam_ref = lam_for(ref)
+        lam_by_key = {tuple(str(x) for x in (e if isinstance(e, tuple) else (e,))): float(lam_ref.iloc[i])
+                      for i, e in enumerate(lam_ref.index.tolist())}
+
+        def orig_key(e):
+            e = tuple(str(x) for x in (e if isinstance(e, tuple) else (e,)))
+            return e[:-1] + (inv.get(e[-1], e[-1]),)
+
+        lam_bj = pd.Series([lam_by_key[orig_key(e)] for e in bj.index.tolist()], index=bj.index)
+        sw_bj = np.asarray(bj.signed_weights(lam_bj), dtype=float)
+        if sw_bj.shape != a.shape or not np.allclose(sw_bj, a, rtol=1e-10, atol=1e-12):
+            raise PropertyViolation(f"{case['moment']}: signed_weights change when the group labels are renamed by {smap if case['moment'] != 'ErrorRate' else ''}: {sw_bj.tolist()} vs {a.tolist()}")
     tags = []
     nd = any(k in PANDAS and p != "default" for k, p in zip(case["kinds"], case["plans"])) or (
         case["x_kind"] == "dataframe" and case["plans"][3] != "default")
@@ -498,7 +520,8 @@ def _mf_cases(draw):
 
 
 def _groups(draw, n, labels=None, need_both_labels=False):
-    labels = labels or draw(st.sampled_from([["a", "b", "c"], [0, 1, 2], [2, 7, 5], ["x y", "", "z"]]))
+    labels = labels or draw(st.sampled_from([["a", "b", "c"], [0, 1, 2], [2, 7, 5], ["x y", "", "z"], [2, 10, 33], [-1, -2, 5],
+                                             [9.25, 10.0, 100.5]]))
     k = draw(st.integers(2, 3))
     g = [labels[i % k] for i in range(n)]
     return [g[i] for i in draw(st.permutations(range(n)))]
@@ -609,7 +632,7 @@ SUBS = [
     Sub("named_metrics", check_named, strategy=_named_cases, quick=120, thorough=4000, shards=16, floors={"nt": 0.352}),
     Sub("moments", check_moment, strategy=_moment_cases, quick=300, thorough=10000, shards=16, floors={"nt": 0.392, "control": 0.175}),
     Sub("threshold_optimizer", check_threshold_optimizer, strategy=_to_cases, quick=150, thorough=4000, shards=16,
-        floors={"nt": 0.261, "y_dataframe": 0.08}),
+        floors={"nt": 0.2, "y_dataframe": 0.03}),
     Sub("reductions", check_reduction, strategy=_red_cases, quick=60, thorough=2000, shards=16, shrink_quick=False,
         floors={"nt": 0.1}),
 ]
